@@ -34,8 +34,8 @@ CURRENT = ["JanetModel.Stream.Current." + t for t in (
     "current_source_guards_read_slot", "current_source_guards_write_slot", "current_source_registers_dgram_for_write",
     "every_op_completes_or_errors_current")]
 WRAP = "-Wl," + ",".join("--wrap=" + s for s in "read write send recv sendto recvfrom epoll_ctl epoll_wait".split())
-QUOTA = {"quick": {"stream": 110, "shared-seq": 40, "close": 60, "contend": 24, "dgram": 36, "proc": 30},
-         "thorough": {"stream": 1500, "shared-seq": 500, "close": 600, "contend": 200, "dgram": 400, "proc": 300}}
+QUOTA = {"quick": {"errinj": 30, "stream": 110, "shared-seq": 40, "close": 60, "contend": 24, "dgram": 36, "proc": 30},
+         "thorough": {"errinj": 300, "stream": 1500, "shared-seq": 500, "close": 600, "contend": 200, "dgram": 400, "proc": 300}}
 
 
 # ------------------------------------------------------------------------------------------------ correspondence
@@ -46,7 +46,11 @@ def ops_from_trace(trace):
     for line in trace.splitlines():
         if line.startswith("N "):
             t = line.split()
+            if len(t) < 3 or "=" not in t[1]:
+                continue
             fib = t[1].split("=")[1]
+            if t[2] == "op" and len(t) < 9:
+                continue
             if len(t) > 3 and t[2] == "op":
                 # N fiber=k op sid=s <kind> <dir> <n> <name> <idx>
                 cur[fib] = {"fiber": fib, "sid": t[3], "kind": t[4], "dir": t[5], "n": t[6], "name": t[7], "idx": t[8], "calls": [], "status": None}
@@ -55,6 +59,8 @@ def ops_from_trace(trace):
                 ops.append(cur.pop(fib))
         elif line.startswith("S "):
             kv = dict(x.split("=", 1) for x in line.split()[3:] if "=" in x)
+            if len(line.split()) < 3 or not all(k in kv for k in ("ret", "errno", "asked", "req")):
+                continue   # truncated line (process killed while writing the trace)
             call = line.split()[2]
             fib = kv.get("fiber")
             o = cur.get(fib)
@@ -68,8 +74,21 @@ def ops_from_trace(trace):
     return ops + list(cur.values())
 
 
+MAXCALLS = 4000   # longer operation logs are compared on this prefix only (the model driver recurses per call)
+
+
 def model_line(o):
+    try:
+        return model_line_inner(o)
+    except (KeyError, ValueError, IndexError) as e:
+        return "MISMATCH operation log of %s[%s] cannot be interpreted (%s: %s)" % (o.get("name"), o.get("idx"), type(e).__name__, e), None
+
+
+def model_line_inner(o):
     """protocol line for the model + the implementation's (off,len,got) triples"""
+    if len(o["calls"]) > MAXCALLS:
+        o["calls"] = o["calls"][:MAXCALLS]
+        o["truncated"] = True
     ans = []
     impl = []
     for c in o["calls"]:
@@ -99,6 +118,10 @@ def model_line(o):
     n = int(c0["r.left"]) + int(c0["r.read"])
     base = int(c0["r.count"]) - int(c0["r.read"]) if c0["r.mode"] != "2" or True else int(c0["r.count"])
     inclen = sum(max(0, int(c["ret"])) for c in o["calls"])
+    # the model carries the byte lists themselves (`got ++ take k inc` per call): cost ~ calls x bytes.  Operations beyond the
+    # budget are not replayed through the driver (counted in the evidence); their bytes are still judged by the direct oracle.
+    if len(o["calls"]) * inclen > 30000000:
+        return "SKIP", None
     for c in o["calls"]:
         impl.append("%s:%s:%d" % (c["r.off"], c["req"], max(0, int(c["ret"]))))
     return "R %d %s %d %d %d %s" % (n, c0["r.chunk"], 1 if c0["r.mode"] == "2" else 0, base, inclen, " ".join(ans)), impl
@@ -112,27 +135,83 @@ def prepare_corr(tag, trace, eops):
         ml, impl = model_line(o)
         if ml is None:
             continue
+        if ml == "SKIP":
+            out.append(("SKIP", tag, {"name": o["name"], "idx": o["idx"], "kind": o["kind"]}, None, None))
+            continue
         e = byname.get((o["name"], o["idx"]))
-        out.append((ml, tag, {"name": o["name"], "idx": o["idx"], "kind": o["kind"]}, impl, e["status"] if e else None))
+        out.append((ml, tag, {"name": o["name"], "idx": o["idx"], "kind": o["kind"]}, impl,
+                    e["status"] if e and not o.get("truncated") else None))
     return out
+
+
+def run_model(ctx, exe, lines, budget_s):
+    """run the driver in batches within a time budget; a batch on which it CRASHES is bisected to the offending lines.
+    Returns (outputs, None for lines not processed; indices of the lines the driver crashed on).  Never raises."""
+    import subprocess
+    import time
+    out = [None] * len(lines)
+    crashed = []
+    deadline = time.time() + budget_s
+
+    def go(lo, hi):
+        left = deadline - time.time()
+        if left <= 1:
+            return True            # out of budget: leave as not compared
+        data = ("\n".join(lines[lo:hi]) + "\n").encode()
+        try:
+            r = subprocess.run([exe], input=data, stdout=subprocess.PIPE, stderr=subprocess.PIPE, timeout=left)
+            got = r.stdout.decode(errors="replace").splitlines()
+            if r.returncode == 0 and len(got) == hi - lo:
+                out[lo:hi] = got
+                return True
+            return False
+        except subprocess.TimeoutExpired:
+            return True            # budget exhausted inside this batch: not compared
+        except OSError:
+            return False
+    B = 1000
+    for lo in range(0, len(lines), B):
+        hi = min(len(lines), lo + B)
+        if go(lo, hi):
+            continue
+        # bisect down to the offending lines
+        todo = [(lo, hi)]
+        while todo:
+            a, b = todo.pop()
+            if go(a, b):
+                continue
+            if b - a == 1:
+                crashed.append(a)
+            else:
+                mid = (a + b) // 2
+                todo += [(a, mid), (mid, b)]
+    return out, sorted(crashed)
 
 
 def correspond(ctx, exe, corr):
     """compare the per-operation call sequences and outcomes of the implementation with the model"""
     lines, meta = [], []
     state_mismatch = []
+    nskip = 0
     for ml, tag, o, impl, status in corr:
+        if ml == "SKIP":
+            nskip += 1
+            continue
         if ml.startswith("MISMATCH"):
             state_mismatch.append({"scenario": tag, "op": "%s[%s]" % (o["name"], o["idx"]), "what": ml})
             continue
         lines.append(ml)
         meta.append((tag, o, impl, status))
     if not lines or not exe:
-        return 0, [], state_mismatch, {}
-    out = ctx.model(lines, exe=exe)
-    diffs = []
-    kinds = {}
+        return 0, [], state_mismatch, {"skipped_cost": nskip}
+    out, crashed = run_model(ctx, exe, lines, 150 if ctx.tier == "quick" else 1200)
+    diffs = [{"scenario": meta[i][0], "op": "%s[%s] %s" % (meta[i][1]["name"], meta[i][1]["idx"], meta[i][1]["kind"]),
+              "line": lines[i][:300], "model": "", "why": "the model driver does not accept this operation log (%d answers)" % (len(lines[i].split()) - 3)}
+             for i in crashed]
+    kinds = {"skipped_cost": nskip, "not_compared_time_budget": sum(1 for x in out if x is None) - len(crashed)}
     for ml, mo, (tag, o, impl, status) in zip(lines, out, meta):
+        if mo is None:
+            continue
         m = re.match(r"res=(\S+) (?:start|read)=(\d+)(?: left=(\d+) got=(\d+))? calls=(.*)$", mo)
         if not m:
             diffs.append({"scenario": tag, "line": ml, "model": mo, "why": "unparsable"})
@@ -158,7 +237,7 @@ def correspond(ctx, exe, corr):
                 why = "model: still pending, impl returned %s" % status
         if why:
             diffs.append({"scenario": tag, "op": "%s[%s] %s" % (o["name"], o["idx"], o["kind"]), "line": ml[:300], "model": mo[:300], "why": why})
-    return len(lines), diffs, state_mismatch, kinds
+    return sum(1 for x in out if x is not None), diffs, state_mismatch, kinds
 
 
 # ------------------------------------------------------------------------------------------------ exit status / redirection
@@ -214,6 +293,16 @@ def exec_checks(ctx, exe):
 # ------------------------------------------------------------------------------------------------ run
 def run_batch(ctx, exe, jobs):
     def one(job):
+        try:
+            return one_inner(job)
+        except Exception as e:   # noqa: BLE001  (a harness failure on one scenario is reported, it does not end the run)
+            import traceback
+            fam, k, sc = job
+            light = {"trace": "", "stdout": "", "stderr": traceback.format_exc()[-1500:],
+                     "faults": dict.fromkeys(["calls", "eagain", "short", "eintr", "err", "real_eagain", "real_partial", "rearm"], 0), "corr": []}
+            return fam, k, sc, light, [("scenario-run-failed:" + sc.get("family", "?"), "running / judging the scenario failed: %s: %s" % (type(e).__name__, e))], 0
+
+    def one_inner(job):
         fam, k, sc = job
         res = scen.run_scenario(sc, exe)
         fails, ops = scen.oracle(sc, res)
@@ -300,13 +389,19 @@ def run(ctx, only=None):
             ctx.violation(sig, {"kind": "scenario", "scenario": sc, "family": sc["family"], "failure": desc,
                                 "stdout_tail": res["stdout"], "stderr_tail": res["stderr"], "trace_tail": res["trace"]},
                           what="%s: %s" % (sc["family"], desc[:500]))
-    nexec, efails = exec_checks(ctx, exe)
+    try:
+        nexec, efails = exec_checks(ctx, exe)
+    except Exception as e:   # noqa: BLE001
+        nexec, efails = 0, [("exit-status:harness-failed", "exit status / redirection cases could not be run or interpreted: %s: %s" % (type(e).__name__, e))]
     for sig, desc in efails:
         if sig not in reported:
             reported.add(sig)
             ctx.violation(sig, {"kind": "exec", "failure": desc}, what=desc)
     # (D)
-    ncorr, diffs, smis, mkinds = correspond(ctx, drv, traces)
+    try:
+        ncorr, diffs, smis, mkinds = correspond(ctx, drv, traces)
+    except Exception as e:   # noqa: BLE001
+        ncorr, diffs, smis, mkinds = 0, [{"why": "correspondence step failed: %s: %s" % (type(e).__name__, e)}], [], {}
     if smis:
         broken.append("state->start disagrees with the pointer passed to write(): %r" % (smis[0],))
     if diffs:
@@ -329,7 +424,7 @@ def run(ctx, only=None):
         "payload_bytes_total": sum(sizes), "payload_size_max": max(sizes) if sizes else 0,
         "payload_sizes_near_pipe_buffer": sum(1 for s in sizes if 65530 <= s <= 65542),
         "janet_level_ops": nops, "exec_cases": nexec,
-        "intercepted_syscalls": faults["calls"], "faults_injected": {k: faults[k] for k in ("eagain", "short", "eintr")},
+        "intercepted_syscalls": faults["calls"], "faults_injected": {k: faults[k] for k in ("eagain", "short", "eintr", "err")},
         "kernel_own": {"eagain": faults["real_eagain"], "partial_transfers": faults["real_partial"]}, "epoll_rearms": faults["rearm"],
         "correspondence_ops": ncorr, "correspondence_diffs": len(diffs), "model_outcomes": mkinds,
         "source_facts": facts, "broken": broken[:6],
